@@ -27,8 +27,8 @@ claimed = {
          "NOT decided: local soundness of the transfer rules in processBlock, fact import/export, SA4023; the standard abstract-interpretation argument from local soundness to global soundness is a paper step", "DESIGN.md §7 C15"),
  "C17": ("proof that the U1000 verdict is a function of the edge set and merged over variants as stated: SerializedGraph.color is a sound and complete reachability colouring (seen contains the root, is closed under use edges, and is contained in every edge-closed predicate containing the root), quieten never touches the seen bits, Results partitions the nodes by (seen, quiet), and linter.lint keys Used and Unused objects identically and reports exactly the collected unused objects whose key no result marked used",
          "assumed: the least-fixpoint step from (closed, contains root, contained in every closed predicate) to 'seen == reachable' (paper), monotonicity of reachability in the edge set (paper); NOT decided: that the AST walk produces the same edge set under file/declaration permutation, SerializedGraph.Merge (whole-program mode)", "DESIGN.md §7 C17"),
- "C19": ("proof of the layout arithmetic of structlayout-optimize: align (least multiple >= x), offsetsof against the recursive layout spec, size, Swap, Less is the documented order and a strict weak order",
-         "NOT decided yet: gcsizes vs the compiler's rules, structlayout.sizes tiling, pad/combine, minimality", "DESIGN.md §7 C19"),
+ "C19": ("proof that go/gcsizes implements the compiler's layout rules for every type: Sizeof, Alignof and Offsetsof equal a trusted specification transcribed from go/types' gcSizes (basic sizes, strings/slices/interfaces, arrays, structs with trailing zero-size field rule, complex alignment, max-align clamp) via mutual induction; cmd/structlayout.sizes appends entries that start at the given base and leave earlier entries untouched; structlayout-optimize: align, offsetsof, size, Swap, Less is the documented order and a strict weak order, pad produces a tiling of [0,total) in which every field is aligned and total is a multiple of the largest alignment",
+         "assumed: the transcription of the compiler's rules (axioms gcspec, listed), go/types observers, targets (8,8) and (4,4) only; sort.Sort sorts w.r.t. Less (optimize is one call of it); NOT decided: that the entries of structlayout.sizes chain without gaps up to base+size (obligations sizes#post.chain/#post.end do not discharge and are not counted), combine, minimality of the sorted layout, JSON plumbing", "DESIGN.md §7 C19"),
  "C20": ("proof that a version-restricted problem is reported exactly when the effective language and standard-library versions lie in the range: report.Report (iff), the four option setters set exactly their own field (frame), code.StdlibVersion / LanguageVersion follow the documented rules",
          "assumed: go/version.Compare, types.Info.FileVersions, Package.GoVersion (dependencies); NOT decided: -go flag parsing and the loader's choice of types.Config.GoVersion", "DESIGN.md §7 C20"),
 }
